@@ -1,8 +1,12 @@
 //! Verification harness: runs the real implementation (path dependency on /repo)
 //! and prints canonical observations. One sub-command per engine.
+mod ast;
+mod sat;
 mod tables;
 
 fn main() {
+    // panics of the library are caught with catch_unwind and reported as observations
+    std::panic::set_hook(Box::new(|_| {}));
     let args: Vec<String> = std::env::args().collect();
     if args.len() < 2 {
         eprintln!("usage: verif-harness <engine> [args]");
@@ -10,6 +14,7 @@ fn main() {
     }
     match args[1].as_str() {
         "tables" => tables::run(&args[2..]),
+        "sat" => sat::run(&args[2..]),
         other => {
             eprintln!("unknown engine {}", other);
             std::process::exit(2);
